@@ -41,8 +41,9 @@ NOT_COVERED = [
     "_visit_binary_operator_chain as a left fold: bounded native check only (tuples of heterogeneous children are not modelled)",
     "decoding of literal digits: bounded enumeration against the real grammar (int()/Fraction(str) are uninterpreted in the "
     "proofs); escape table of _parse_string_literal: only its exception classes are proved, not the decoded text",
-    "min / max by the rational order (proved: count = cardinality, min / max return a member, unknown set attributes are "
-    "rejected), the attribute operator on types, identifiers (unknown identifiers of the statement)",
+    "the attribute operator on types, identifiers (unknown identifiers of the statement); min / max / count of a Set ARE "
+    "proved (true minimum / maximum by the rational order via the selection-fold lemma of functools.reduce, an assumed "
+    "library lemma whose premises - asymmetry and negative transitivity of the selection - are proof obligations)",
     "sets of sets / sets of types (precondition `domain`); non-integer exponents are specified through CPython's binary "
     "floating point (uninterpreted fpow_* functions), as the code computes them - not as mathematical roots",
     "bitwise | ^ & on integers are uninterpreted total functions of the two operands (operand order and integrality are "
